@@ -261,3 +261,36 @@ add({"name": "hxc_get_track_metadata", "file": HX,
                (r"return result;", "return;", 1),
                (r"(for \(unsigned long pos = self->header_\.track_list_offset;\s*;\s*pos \+= 11\))", r"\1 TRACKLIST_LOOP_CONTRACT", 1)],
      "dropped": ["verbose diagnostics"]})
+
+# ---- crc16.cc, track.h (C02 .inf CRC, C05/C06 leaf lemmas) ---------------------------------------------------
+add({"name": "crc_cycle", "file": "dfs/crc16.cc", "anchor": r"inline unsigned long crc_cycle\(unsigned long crc\)",
+     "sig": "static unsigned long crc_cycle(unsigned long crc)", "rules": []})
+add({"name": "CRC16Base_update", "file": "dfs/crc16.cc", "anchor": r"void CRC16Base::update\(const uint8_t\* start, const uint8_t \*end\)",
+     "sig": "static void CRC16Base_update(struct CRC16Base *self, const uint8_t *start, const uint8_t *end)",
+     "pre": "#define crc_ (self->crc_)\n", "post": "#undef crc_\n",
+     "rules": [(r"const auto in = \*p\+\+;", "const uint8_t in = *p++;", 1), ASSERT(1),
+               (r"(for \(const uint8_t\* p = start; p < end; \))", r"\1 CRC_UPDATE_LOOP_CONTRACT", 1)]})
+add({"name": "CRC16Base_update_bit", "file": "dfs/crc16.cc", "anchor": r"void CRC16Base::update_bit\(bool bitval\)",
+     "sig": "static void CRC16Base_update_bit(struct CRC16Base *self, bool bitval)",
+     "pre": "#define crc_ (self->crc_)\n", "post": "#undef crc_\n", "rules": [ASSERT(1)]})
+add({"name": "reverse_bit_order", "file": "dfs/track.h", "anchor": r"inline byte reverse_bit_order\(Track::byte in\)",
+     "sig": "static byte reverse_bit_order(byte in)", "rules": [(r"static_cast<byte>\(", "(byte)(", 1)]})
+BS_PRE = "#define input_ (self->input_)\n#define raw_bit_size_ (self->raw_bit_size_)\n#define first_ (self->first_)\n#define stride_ (self->stride_)\n#define raw_pos(x) BitStream_raw_pos(self, (x))\n#define rawbit(x) BitStream_rawbit(self, (x))\n"
+BS_POST = "#undef input_\n#undef raw_bit_size_\n#undef first_\n#undef stride_\n#undef raw_pos\n#undef rawbit\n"
+def bs(name, anchor, sig, rules=()):
+    return {"name": "BitStream_" + name, "file": "dfs/track.h", "anchor": anchor, "sig": sig, "rules": list(rules), "pre": BS_PRE, "post": BS_POST}
+add(bs("raw_pos", r"size_t raw_pos\(size_t bitpos\) const", "static size_t BitStream_raw_pos(const struct BitStream *self, size_t bitpos)"))
+add(bs("rawbit", r"bool rawbit\(size_t raw_bitpos\) const", "static bool BitStream_rawbit(const struct BitStream *self, size_t raw_bitpos)"))
+add(bs("getbit", r"bool getbit\(size_t bitpos\) const", "static bool BitStream_getbit(const struct BitStream *self, size_t bitpos)"))
+add(bs("size", r"size_t size\(\) const", "static size_t BitStream_size(const struct BitStream *self)"))
+add({"name": "mfm_read_byte", "file": "dfs/track_mfm.cc",
+     "anchor": r"std::optional<Track::byte> read_byte\(const Track::BitStream& bits, size_t& pos,\s*std::string& error\)",
+     "sig": "static struct opt_byte mfm_read_byte(const struct BitStream *bits, size_t *pos_)",
+     "pre": "#define pos (*pos_)\n", "post": "#undef pos\n",
+     "rules": [ASSERT(1), (r"\bauto began_at\b", "size_t began_at", 1), (r"bits\.getbit\(", "BitStream_getbit(bits, ", 3),
+               (r"bits\.size\(\)", "BitStream_size(bits)", 1),
+               (r'error = "unexpected end-of-track";', "g_diag++;", 1),
+               (r"std::ostringstream ss;.*?error = ss\.str\(\);", "g_diag++;  /* diagnostic text dropped */", 1),
+               (r"return std::nullopt;", "{ struct opt_byte none_; none_.has = 0; none_.val = 0; return none_; }", 2),
+               (r"return data;", "{ struct opt_byte some_; some_.has = 1; some_.val = (byte)data; return some_; }", 1)],
+     "dropped": ["diagnostic text"]})
